@@ -170,6 +170,9 @@ def execute(dev):
 
 
 def run(report, tier, only=None):
+    from vmc.oracles import selftest
+
+    selftest.run(report)
     k = int(only) if only and only.isdigit() else K[tier]
     import vmc.core.pool as pool
 
